@@ -67,6 +67,14 @@ def check(ctx):
                 raise AnalysisError("R08.1", f.where(call), f"cannot resolve comparator {norm(key.args[0])}")
             roles = discover_roles(ctx, f, call)
             check_comparator(ctx, cmpf, roles)
+        elif isinstance(key, ast.Call) and norm(key.func).endswith("partial") and key.args and repo.resolve_callable(f, key.args[0]) is not None:
+            # key=functools.partial(keyfunc, name=value ...): a key function with extra parameters fixed at the sort call
+            keyf = repo.resolve_callable(f, key.args[0])
+            roles = discover_roles(ctx, f, call)
+            check_key_function(ctx, f, call, keyf, {k.arg: k.value for k in key.keywords if k.arg}, roles)
+        elif not isinstance(key, ast.Lambda) and repo.resolve_callable(f, key) is not None and len([n for n in walk_own(repo.resolve_callable(f, key).node) if isinstance(n, ast.Return)]) > 1:
+            roles = discover_roles(ctx, f, call)
+            check_key_function(ctx, f, call, repo.resolve_callable(f, key), {}, roles)
         else:
             keyf = repo.resolve_callable(f, key) if not isinstance(key, ast.Lambda) else None
             body = key.body if isinstance(key, ast.Lambda) else None
@@ -418,6 +426,111 @@ def check_key_tuple(ctx, f, call, body, arg, roles):
     flag = f"{arg}.{by_role['BO']} == -1"
     ok = len(elts) >= 4 and elts[0] == flag and elts[1:4] == want_tail and (len(elts) == 4 or elts[4:] == [f"{arg}.{by_role['offset']}"])
     ctx.check(ok, "R08.1", f.where(call), "key tuple is (BO == -1, BO, NO, start[, offset]) — lexicographic, untagged last, ties by input order (stable sort)", key_of(f, body), key=elts)
+
+
+def check_key_function(ctx, f, call, keyf, bound, roles):
+    """key= is a function (possibly with several returns, possibly with extra parameters bound by functools.partial)
+    that maps a record to a tuple: the order it induces — lexicographic comparison of the two tuples — is computed on
+    every order type of the fields (and of the extra parameters, which are free integers unless bound to a literal) and
+    compared with the specification (BO, NO, start, offset; untagged last)."""
+    ctx.analysed_func(keyf)
+    arg = keyf.params[0]
+    by_role = {r: a for a, r in roles.items()}
+    attrs = {n.attr for n in walk_own(keyf.node) if isinstance(n, ast.Attribute) and isinstance(n.value, ast.Name) and n.value.id == arg}
+    for r in ("BO", "NO", "start", "offset"):
+        if r not in by_role and r in attrs:
+            by_role[r] = r
+    missing = [r for r in ("BO", "NO", "start", "offset") if r not in by_role]
+    if missing:
+        raise AnalysisError("R08.1", keyf.where(), f"cannot identify the record fields carrying {missing} in the key function")
+    order = [by_role[r] for r in ("BO", "NO", "start", "offset")]
+    free = [p_ for p_ in keyf.params[1:]]
+    literal = {}
+    for p_ in list(free):
+        v = bound.get(p_)
+        if isinstance(v, ast.Constant) and isinstance(v.value, int):
+            literal[p_] = v.value
+            free.remove(p_)
+    rets = [r for r in walk_own(keyf.node) if isinstance(r, ast.Return)]
+    if not rets or not all(isinstance(r.value, ast.Tuple) for r in rets):
+        raise AnalysisError("R08.1", keyf.where(), "the key function does not return tuples on every path")
+    # which column of the key tuple a free parameter / a literal can appear in
+    col_names = {i: set() for i in range(8)}
+    col_consts = {i: set() for i in range(8)}
+    for r in rets:
+        for i, e in enumerate(r.value.elts):
+            for x in ast.walk(e):
+                if isinstance(x, ast.Name) and x.id in free:
+                    col_names[i].add(x.id)
+                if isinstance(x, ast.Constant) and isinstance(x.value, int) and not isinstance(x.value, bool):
+                    col_consts[i].add(x.value)
+                if isinstance(x, ast.Name) and x.id in literal:
+                    col_consts[i].add(literal[x.id])
+    # the column in which each field appears
+    col_of_attr = {}
+    for r in rets:
+        for i, e in enumerate(r.value.elts):
+            for x in ast.walk(e):
+                if isinstance(x, ast.Attribute) and isinstance(x.value, ast.Name) and x.value.id == arg:
+                    col_of_attr.setdefault(x.attr, set()).add(i)
+    comps = []
+    for a in order:
+        names = [f"a.{a}", f"b.{a}"]
+        consts = {-1} if a == order[0] else set()
+        for i in col_of_attr.get(a, ()):  # everything that meets this field in a tuple column is ordered together with it
+            names += [f"free.{n}" for n in sorted(col_names[i]) if f"free.{n}" not in names]
+            consts |= col_consts[i]
+        # constants tested against the field anywhere in the function
+        for x in walk_own(keyf.node):
+            if isinstance(x, ast.Compare) and any(isinstance(y, ast.Attribute) and y.attr == a for y in ast.walk(x)):
+                for y in ast.walk(x):
+                    if isinstance(y, ast.Constant) and isinstance(y.value, int) and not isinstance(y.value, bool):
+                        consts.add(y.value)
+                    if isinstance(y, ast.UnaryOp) and isinstance(y.op, ast.USub) and isinstance(y.operand, ast.Constant):
+                        consts.add(-y.operand.value)
+        comps.append((names, sorted(consts)))
+    try:
+        envs = list(component_envs(comps))
+    except Unsupported as e:
+        raise AnalysisError("R08.1", keyf.where(), str(e))
+
+    def atoms_for(p):
+        def atom_of(e):
+            if isinstance(e, ast.Attribute) and isinstance(e.value, ast.Name) and e.value.id == arg:
+                return f"{p}.{e.attr}"
+            if isinstance(e, ast.Name) and e.id in free:
+                return f"free.{e.id}"
+            return None
+
+        return atom_of
+
+    bad = None
+    rows = 0
+    for env, scale in envs:
+        env = dict(env)
+        env["__minus1__"] = -1 * scale
+        for k_, v_ in literal.items():
+            env[f"lit.{k_}"] = v_ * scale
+        off = order[3]
+        all_equal = all(env[f"a.{x}"] == env[f"b.{x}"] for x in order)
+        if env[f"a.{off}"] == env[f"b.{off}"] and not all_equal:
+            continue
+        rows += 1
+        try:
+            ka = Evaluator(env, atoms_for("a"), scale).block(keyf.node.body)
+            kb = Evaluator(env, atoms_for("b"), scale).block(keyf.node.body)
+        except Unsupported as e:
+            raise AnalysisError("R08.1", keyf.where(), f"key function outside the comparison fragment: {e}")
+        if ka is None or kb is None:
+            raise AnalysisError("R08.1", keyf.where(), "the key function can fall off its end")
+        ka, kb = ka[1], kb[1]
+        got = (ka > kb) - (ka < kb)
+        want = spec_sign(env, "a", "b", order)
+        if want in ("any", 0):
+            continue
+        if got != want and bad is None:
+            bad = {"witness": {k: (v / scale if v % scale else v // scale) for k, v in sorted(env.items()) if not k.startswith("__")}, "key(a)": [x / scale if isinstance(x, int) and not isinstance(x, bool) else x for x in ka], "key(b)": [x / scale if isinstance(x, int) and not isinstance(x, bool) else x for x in kb], "order_by_key": got, "required": want}
+    ctx.check(bad is None, "R08.1", keyf.where(), "the order induced by the key tuples equals the specification on every order type: lexicographic by (BO, NO, start, input offset), records with an untagged anchor (BO == -1) after all tagged ones" + (f"; extra parameters {free} are free integers: nothing bounds them above every BO" if free else ""), key_of(keyf, f"key-order:{bad['witness'] if bad else ''}"[:300]), table_rows=rows, **(bad or {}))
 
 
 # ---------------------------------------------------------------------------------------------
